@@ -284,7 +284,7 @@ func ReadLengthedBytesSlice(b []byte) (m [][]byte, left []byte, _ error) {
 	case err != nil:
 		return nil, nil, err
 	case i > maxLengthBytes:
-		return nil, nil, err
+		return nil, nil, errors.Errorf("huge size, %v", i)
 	default:
 		m = make([][]byte, i)
 
@@ -413,9 +413,10 @@ type BytesFrameReader struct {
 func NewBytesFrameReader(r io.Reader) (*BytesFrameReader, error) {
 	var version [2]byte
 
-	switch _, err := r.Read(version[:]); {
-	case errors.Is(err, io.EOF):
-	case err != nil:
+	// NOTE Read() may return less than the version bytes
+	switch _, err := io.ReadFull(r, version[:]); {
+	case err == nil, errors.Is(err, io.EOF):
+	default:
 		return nil, errors.Wrap(err, "version")
 	}
 
